@@ -127,7 +127,7 @@ class SNAXXDMAAccelerator(
         result: Sequence[tuple[Sequence[Operation], SSAValue]] = []
 
         do_broadcast = [False] * len(self.streamer_config.data.streamers)
-        is_zero_pattern = False
+        zero_patterns = [False] * len(self.streamer_config.data.streamers)
 
         for operand, streamer in enumerate(self.streamer_config.data.streamers):
             # streamer must generate zero pattern if the stream is coming from c0
@@ -137,6 +137,7 @@ class SNAXXDMAAccelerator(
                     isinstance(opresult.op, arith.ConstantOp)
                     and opresult.op.value == c0_attr  # TODO: check what zero patterns are and if they are relevant here
                 )
+            zero_patterns[operand] = is_zero_pattern
 
             # base pointers (low, high)
             if is_zero_pattern:
@@ -147,6 +148,8 @@ class SNAXXDMAAccelerator(
             result.append(([c0 := arith.ConstantOp.from_int_and_width(0, i32)], c0.result))
 
         for operand, streamer in enumerate(self.streamer_config.data.streamers):
+            is_zero_pattern = zero_patterns[operand]
+
             # spatial strides
             for dim, flag in enumerate(streamer.spatial_dims):
                 stride = op.stride_patterns.data[operand].spatial_strides.data[dim].data
